@@ -459,7 +459,30 @@ func (cl *vkCluster) syncMeta() error {
 	return cl.waitAll(func(mc *meta.Client) bool { d := mc.Data(); return d.Index >= max })
 }
 
+// dropDB retires a case's database. The drop itself is deferred by eight cases: a node may still be streaming
+// the answer to a request whose connection the proxy cut, and dropping the database under such a stream makes
+// the node dereference unmapped index memory (observed: SIGSEGV in tsdb.(*MeasurementFieldSet).Fields under
+// storage/reads array cursors when a database is dropped during a storage read - a genuine crash, outside the
+// properties decided here, see DESIGN.md section 8.6) and kills the whole test process.
 func (cl *vkCluster) dropDB(db string) {
+	vkDropMu.Lock()
+	vkDropQueue = append(vkDropQueue, db)
+	var victim string
+	if len(vkDropQueue) > 8 {
+		victim, vkDropQueue = vkDropQueue[0], vkDropQueue[1:]
+	}
+	vkDropMu.Unlock()
+	if victim != "" {
+		cl.dropDBNow(victim)
+	}
+}
+
+var (
+	vkDropMu    sync.Mutex
+	vkDropQueue []string
+)
+
+func (cl *vkCluster) dropDBNow(db string) {
 	cl.nodes[0].srv.MetaClient.DropDatabase(db)
 	for _, nd := range cl.nodes {
 		nd.srv.TSDBStore.DeleteDatabase(db)
